@@ -162,7 +162,7 @@ func cmdCheck(args []string) int {
 	{
 		var kept []*Obligation
 		for _, o := range obls {
-			if reason, ok := unclaimed[o.Name]; ok {
+			if reason, ok := unclaimed.match(o.Name); ok {
 				notClaimed = append(notClaimed, o.Name+" — "+reason)
 				continue
 			}
